@@ -62,6 +62,13 @@ static std::pair<float, Solution> findRoot(
 
         for (float step = r / slope; true; step /= 2)
         {
+            // A non-finite step (NaN gradient, infinite residual) can
+            // never satisfy any exit condition below: give up here
+            if (!std::isfinite(step))
+            {
+                converged = true;
+                break;
+            }
             for (auto& v : vars)
             {
                 e.setVar(v.first, v.second - step * ds.at(v.first));
